@@ -992,6 +992,17 @@ func (env *Env) call(x *ast.CallExpr) (tv, error) {
 		}
 		ac := "LA:" + strings.TrimPrefix(ex.lockComp(l), "LK:")
 		return tv{t: sel(ex.get(env.st, ac, arraySort(SInt, SInt)), l.ref)}, nil
+	case "holdsSome":
+		// holdsSome(pkg.Type.field): this goroutine holds at least one mutex of that kind (decided in lock mode only,
+		// where the per-kind counters are kept; outside it the clause says nothing)
+		kind := types.ExprString(x.Args[0])
+		if !ex.lockMode {
+			return tv{t: tTrue}, nil
+		}
+		if ex.inRequires {
+			ex.lkRequired["LK:"+kind] = true
+		}
+		return tv{t: app(SBool, ">=", ex.heldCount(env.st, "LH:"+kind), intLit(1))}, nil
 	case "held", "heldW", "unheld", "lockstate":
 		// held(x.RWMutex): lock state of the mutex at that location
 		l, err := env.lockLoc(x.Args[0])
